@@ -729,19 +729,21 @@ def case_lifecycle(ctx, c):
         return {"Real": cnt * g.uniform(0.1, 1.0, nspace), "Integer": (cnt * g.integers(1, 6, nspace)).astype(int), "Binary": cnt.astype(int)}[sub]
 
     def evaluate(p, after):
-        """Judge one evaluation of ``p`` against its current public state."""
+        """Judge one evaluation of ``p`` against its current public state.  False when a clause failed: the history then
+        stops, because later failures of the same object would be consequences keyed under a later operation."""
+        good_all = True
         pc = type(p)
         state = getattr(p, attr)
         nb = int(p.nbestfndr) if kind == "GB" else None
         A = numpy.asarray(state, dtype=float)
         w = {"kind": kind, "built_by": built, "history": list(history), attr: state, "nbestfndr": nb}
         if hap:
-            ctx.check("C18.state.props", int(p.ploidy) == A.shape[0] and int(p.nlatent) == A.shape[3], defsite(pc, "ploidy"),
+            good_all &= ctx.check("C18.state.props", int(p.ploidy) == A.shape[0] and int(p.nlatent) == A.shape[3], defsite(pc, "ploidy"),
                       "ploidy and nlatent are those of the current haplomat", after, witness=dict(w, ploidy=p.ploidy, nlatent=p.nlatent), coords=coords)
             ploidy = A.shape[0]
             sc = ploidy * A.shape[2] * float(numpy.abs(A).max()) if A.size else 0.0
         else:
-            ctx.check("C18.state.props", int(p.nlatent) == A.shape[1], defsite(pc, "nlatent"), "nlatent is that of the current ohvmat", after,
+            good_all &= ctx.check("C18.state.props", int(p.nlatent) == A.shape[1], defsite(pc, "nlatent"), "nlatent is that of the current ohvmat", after,
                       witness=dict(w, nlatent=p.nlatent), coords=coords)
             sc = float(numpy.abs(A).max()) if A.size else 0.0
         eps = dtype_rtol(numpy.asarray(state).dtype) * sc + O.ATOL
@@ -753,20 +755,28 @@ def case_lifecycle(ctx, c):
             ok, lv = guarded(ctx, site, after, coords, lambda: p.latentfn(x), wx)
             if not ok or not ctx.check("C18.state.latentfn", close(ctx, "state latentfn error", lv, exp, eps), site,
                                        "== oracle on the object's current public state", after, witness=dict(wx, got=lv), coords=coords):
+                good_all = False
                 continue        # evalfn is derived from latentfn: one root cause, one key
             site = defsite(pc, "evalfn")
             ok, ev = guarded(ctx, site, after, coords, lambda: p.evalfn(x), wx)
+            good_all &= ok
             if ok:
                 wt = numpy.asarray(p.obj_wt, dtype=float)
                 good = isinstance(ev, tuple) and len(ev) == 3 and close(ctx, "state evalfn error", ev[0], wt * exp, eps * max(1.0, float(numpy.abs(wt).max())))
-                ctx.check("C18.state.evalfn", good, site, "objectives == current obj_wt * oracle latent vector (identity transformation)", after,
+                good_all &= ctx.check("C18.state.evalfn", good, site, "objectives == current obj_wt * oracle latent vector (identity transformation)",
+                          after + ("/obj_wt changed" if wt_changed else ""),
                           witness=dict(wx, got=ev, obj_wt=wt), coords=coords)
+        return good_all
 
+    # finding keys name the last operation that changed latent-relevant state (not merely the last operation made)
     history = ["fresh"]
-    evaluate(prob, "fresh object")
+    last = "fresh object"
+    wt_changed = False
+    if not evaluate(prob, last):
+        return
     nops = int(g.integers(2, 6))
     for _ in range(nops):
-        ops = ["set state (same shape)", "write state in place", "set obj_wt", "deepcopy", "evaluate again"]
+        ops = ["set state (same shape)", "write state in place", "set obj_wt", "copy", "evaluate again"]
         if hap:
             ops += ["set state (other ploidy and block count)", "set state (other ploidy and block count)"]
         if kind == "GB":
@@ -774,43 +784,49 @@ def case_lifecycle(ctx, c):
         op = str(g.choice(ops))
         history.append(op)
         try:
-            if op == "set state (same shape)":
-                new, _, _ = new_state(tuple(numpy.shape(getattr(prob, attr))) if hap else None)
+            if op in ("set state (same shape)", "set state (other ploidy and block count)"):
+                same = op == "set state (same shape)"
+                new, _, _ = new_state(tuple(numpy.shape(getattr(prob, attr))) if hap and same else None)
                 setattr(prob, attr, new)
+                last = "after %s setter%s" % (attr, "" if same or not hap else " (shape changed)")
                 ctx.check("C18.state.props", getattr(prob, attr) is new or numpy.array_equal(getattr(prob, attr), new), defsite(type(prob), attr),
-                          "getter returns the matrix that was set", "after %s setter" % attr, coords=coords)
-                evaluate(prob, "after %s setter" % attr)
-            elif op == "set state (other ploidy and block count)":
-                new, _, _ = new_state()
-                setattr(prob, attr, new)
-                ctx.check("C18.state.props", getattr(prob, attr) is new or numpy.array_equal(getattr(prob, attr), new), defsite(type(prob), attr),
-                          "getter returns the matrix that was set", "after %s setter (shape changed)" % attr, coords=coords)
-                evaluate(prob, "after %s setter (shape changed)" % attr)
+                          "getter returns the matrix that was set", last, coords=coords)
+                if not evaluate(prob, last):
+                    return
             elif op == "write state in place":
                 cur = getattr(prob, attr)
                 if not cur.flags.writeable:
                     continue
                 repl, _, _ = gen_state(g, cur.shape, "gauss")
                 cur[...] = repl.astype(cur.dtype)
-                evaluate(prob, "after in-place write to %s" % attr)
+                last = "after in-place write to %s" % attr
+                if not evaluate(prob, last):
+                    return
             elif op == "set obj_wt":
                 prob.obj_wt = g.choice([-1.0, 1.0, 0.5, -2.0, 0.0], t).astype(float)
-                evaluate(prob, "after obj_wt setter")
+                wt_changed = True
+                if not evaluate(prob, last):
+                    return
             elif op == "set nbestfndr":
                 prob.nbestfndr = int(g.integers(1, k + 1))
-                evaluate(prob, "after nbestfndr setter")
+                last = "after nbestfndr setter"
+                if not evaluate(prob, last):
+                    return
             elif op == "evaluate again":
-                evaluate(prob, "repeated evaluation")
-            elif op == "deepcopy":
+                if not evaluate(prob, last):
+                    return
+            elif op == "copy":
+                deep = bool(g.random() < 0.7)
                 try:
-                    cp = copy.deepcopy(prob) if g.random() < 0.7 else copy.copy(prob)
+                    cp = copy.deepcopy(prob) if deep else copy.copy(prob)
                 except Exception as e:
                     ctx.raised("lifecycle: copy of the problem object", e)
                     continue
                 new, _, _ = new_state(tuple(numpy.shape(getattr(prob, attr))) if hap and g.random() < 0.5 else None)
                 setattr(cp, attr, new)
-                evaluate(cp, "copy after its own %s setter" % attr)
-                evaluate(prob, "original after its copy was changed")
+                if not (evaluate(cp, "%s copy after its own %s setter" % ("deep" if deep else "shallow", attr))
+                        and evaluate(prob, last + "/its copy was changed since")):
+                    return
         except Exception as e:
             ctx.raised("lifecycle: %s" % op, e)
             ctx.ok("C18.returns")
